@@ -155,6 +155,17 @@ func termList(ts []*Term) string {
 }
 
 func checkC11(p *Program, r *Report) {
+	// round 5 (C11-agent5-m3): the leaves of every builder are block.Transactions(); that wrapper k IS transaction k
+	// of the message is C16's index clause
+	defer func() {
+		r.Borrow("C16", func(o *Ob) (string, bool) {
+			if o.Rule == "C16.index" {
+				return "C11.leaves", true
+			}
+			return "", false
+		})
+		r.Floor("C11.leaves", 3)
+	}()
 	r.Explain = "C11.width: the three tree-width functions (two proof builders, one extractor) are the same canonical term in (numTx, height). C11.shape: the three " +
 		"traversals recurse on (height−1, 2·pos) and (height−1, 2·pos+1), guard the second child with 2·pos+1 < width(height−1), stop on height = 0 or a clear " +
 		"flag, and handle the flag bit before the hash before the children; the two builders also agree on the subtree-hash function and on the range of " +
